@@ -12,7 +12,7 @@ from . import flow
 from .common import table, CallGraph
 from .facts import op_place
 
-CRATES = {"gluon_base", "gluon_parser", "gluon_check", "gluon_vm", "gluon", "gluon_format", "gluon_completion"}
+CRATES = {"gluon_base", "gluon_parser", "gluon_check", "gluon_vm", "gluon", "gluon_format"}
 
 HASH_ADTS = ("std::collections::hash::map::HashMap", "std::collections::hash::set::HashSet",
              "hashbrown::map::HashMap", "hashbrown::set::HashSet", "hashbrown::table::HashTable")
@@ -21,42 +21,158 @@ ITER_METHODS = {"iter", "iter_mut", "into_iter", "keys", "values", "values_mut",
                 "retain", "extract_if", "par_iter"}
 
 
+WRAPPER_ADTS = ("gluon_base::scoped_map::ScopedMap",)
+
+
 def _hash_recv(body, c):
-    """if the call is an iterating method of a hash container return (adt, [type rows of generic args])"""
+    """if the call is an iterating method of a hash/btree container return (adt, [type rows of generic args], method)"""
     res = c.res
-    for adt in HASH_ADTS + ORDERED_PTR_KEY_ADTS:
+    for adt in HASH_ADTS + ORDERED_PTR_KEY_ADTS + WRAPPER_ADTS:
         if res.startswith(adt + "::<"):
             meth = res.rsplit("::", 1)[1]
             if meth in ITER_METHODS:
-                ga = c.desc.get("rga") or c.desc.get("ga") or []
+                ga = c.desc.get("ga") or []
                 return adt, [body.ty(g) for g in ga], meth
     # IntoIterator::into_iter(&map) / (map)
     if c.fn and c.fn.endswith("IntoIterator::into_iter") and "self" in c.desc:
         row = body.strip_refs(body.ty(c.desc["self"]))
-        if row.get("adt") in HASH_ADTS + ORDERED_PTR_KEY_ADTS:
+        if row.get("adt") in HASH_ADTS + ORDERED_PTR_KEY_ADTS + WRAPPER_ADTS:
             return row["adt"], [body.types[i] for i in row.get("c", [])], "into_iter"
     return None
 
 
-def _is_addr_key(body, row, depth=0):
-    if depth > 4:
-        return False
+def address_keyed_types(fb):
+    """(AH, AO): ADT paths whose Hash / Ord implementation is (transitively) by address.
+    A Hash impl is by address when it hashes a raw pointer or a value of an address-hashed type; likewise Ord/PartialOrd."""
+    def collect(trait_names, method):
+        direct = {}
+        deps = {}
+        for im in fb.impls:
+            if im.get("trait") not in trait_names:
+                continue
+            c = im["_crate"]
+            row = c.types[im["self"]]
+            if row.get("k") != "adt":
+                continue
+            adt = row["adt"]
+            for it in im["items"]:
+                if it["name"] != method:
+                    continue
+                b = fb.body(it["path"])
+                if b is None:
+                    continue
+                for cl in b.calls():
+                    if cl.fn and cl.fn.rsplit("::", 1)[1] in (method, "partial_cmp", "cmp", "hash") and "self" in cl.desc:
+                        srow = b.strip_refs(b.ty(cl.desc["self"]))
+                        if b.ty(cl.desc["self"]).get("k") == "ptr" or srow.get("k") == "ptr":
+                            direct[adt] = True
+                        elif srow.get("k") == "adt":
+                            deps.setdefault(adt, set()).add(srow["adt"])
+                    if cl.res.startswith("core::ptr::hash") or cl.res.endswith("ptr::eq"):
+                        if "hash" in cl.res:
+                            direct[adt] = True
+                for i, j, pl, rv, ln in b.assigns():
+                    if rv[0] == "cast" and rv[1] == "PointerExposeProvenance":
+                        direct[adt] = True
+        out = set(direct)
+        changed = True
+        while changed:
+            changed = False
+            for a, ds in deps.items():
+                if a not in out and ds & out:
+                    out.add(a)
+                    changed = True
+        return out
+    ah = collect(("core::hash::Hash",), "hash")
+    ao = collect(("core::cmp::Ord", "core::cmp::PartialOrd"), "cmp") | collect(("core::cmp::PartialOrd",), "partial_cmp")
+    return ah, ao
+
+
+def _row_mentions(body, row, adts, depth=0):
+    if depth > 5:
+        return None
+    if row.get("k") == "adt" and row.get("adt") in adts:
+        return row["adt"]
     if row.get("k") == "ptr":
-        return True
-    s = row.get("s", "")
-    if row.get("k") == "adt" and (row.get("adt", "").endswith("::PtrEq") or "PtrEq<" in s):
-        return True
-    if row.get("k") in ("tuple",):
-        return any(_is_addr_key(body, body.types[c], depth + 1) for c in row.get("c", []))
-    return False
+        return "raw pointer"
+    if row.get("k") == "adt" and row.get("adt", "").endswith("::PtrEq"):
+        return row["adt"]
+    if row.get("k") in ("tuple", "ref", "refmut") or (row.get("k") == "adt" and row.get("adt", "").startswith(("alloc::", "core::option", "alloc::sync", "alloc::rc", "alloc::boxed"))):
+        for c in row.get("c", []):
+            r = _row_mentions(body, body.types[c], adts, depth + 1)
+            if r:
+                return r
+    return None
+
+
+INSENSITIVE_TERMINALS = ("Iterator::any", "Iterator::all", "Iterator::count", "Iterator::sum", "Iterator::max", "Iterator::min",
+                         "Iterator::max_by_key", "Iterator::min_by_key", "Iterator::product")
+ADAPTORS = ("Iterator::map", "Iterator::filter", "Iterator::filter_map", "Iterator::cloned", "Iterator::copied", "Iterator::flat_map",
+            "Iterator::chain", "Iterator::inspect", "IntoIterator::into_iter", "Iterator::by_ref", "Iterator::flatten", "Iterator::peekable",
+            "Iterator::zip", "Iterator::enumerate", "Iterator::rev", "Iterator::take_while", "Iterator::skip_while")
+ORDER_FREE_SINKS = HASH_ADTS + ("alloc::collections::btree::map::BTreeMap", "alloc::collections::btree::set::BTreeSet") + WRAPPER_ADTS
+
+
+def _consumer(body, call, depth=0):
+    """classify what consumes the iterator produced by `call`: ('insensitive', why) | ('sensitive', why)"""
+    if depth > 6 or call.dest is None:
+        return "sensitive", "consumer not understood"
+    locs = flow.derived_locals(body, call.dest[0])
+    verdicts = []
+    for c in body.calls():
+        if c is call or c.bb == call.bb:
+            continue
+        hit = False
+        for ai, a in enumerate(c.args):
+            p = op_place(a)
+            if p is not None and p[0] in locs and not p[1]:
+                hit = True
+                pos = ai
+        if not hit:
+            continue
+        fn = c.fn or c.res
+        if any(fn.endswith(x) for x in INSENSITIVE_TERMINALS):
+            verdicts.append(("insensitive", fn.rsplit("::", 1)[1]))
+        elif fn.endswith("Extend::extend"):
+            # extend(dst, iter): iterator is argument 1; destination type = self type
+            srow = body.strip_refs(body.ty(c.desc["self"])) if "self" in c.desc else {}
+            if pos == 1 and srow.get("adt") in ORDER_FREE_SINKS:
+                verdicts.append(("insensitive", "extend into %s" % srow["adt"].rsplit("::", 1)[1]))
+            elif pos == 0:
+                verdicts.append(("insensitive", "is the destination of extend"))
+            else:
+                verdicts.append(("sensitive", "extend into an ordered collection (%s)" % srow.get("s", "?")[:60]))
+        elif fn.endswith("Iterator::collect") or fn.endswith("FromIterator::from_iter"):
+            drow = body.local_ty(c.dest[0]) if c.dest is not None else {}
+            if body.strip_refs(drow).get("adt") in ORDER_FREE_SINKS:
+                verdicts.append(("insensitive", "collected into %s" % drow["adt"].rsplit("::", 1)[1]))
+            else:
+                verdicts.append(("sensitive", "collected into %s" % drow.get("s", "?")[:60]))
+        elif any(fn.endswith(x) for x in ADAPTORS):
+            verdicts.append(_consumer(body, c, depth + 1))
+        elif fn.endswith("Iterator::next") or fn.endswith("Iterator::for_each") or fn.endswith("Iterator::fold") or fn.endswith("Iterator::try_fold"):
+            verdicts.append(("sensitive", "element-by-element loop (%s)" % fn.rsplit("::", 1)[1]))
+        elif fn.endswith("drop") or "drop_in_place" in fn:
+            continue
+        else:
+            verdicts.append(("sensitive", "passed to %s" % fn[-60:]))
+    if not verdicts:
+        return "sensitive", "iterator escapes (returned or stored)"
+    bad = [v for v in verdicts if v[0] == "sensitive"]
+    return bad[0] if bad else verdicts[0]
 
 
 def r7a(fb, rep):
     R = "R7a"
-    rep.rule(R, "no iteration over RandomState-hashed or address-keyed tables")
+    rep.rule(R, "no order-sensitive iteration over tables whose order is random (RandomState) or address dependent")
     exempt = {(e["fn"], e["what"]): e["reason"] for e in table("determinism_exempt.json")["iteration"]}
+    ah, ao = address_keyed_types(fb)
+    rep.extra["address_hashed_types"] = sorted(ah)
+    rep.extra["address_ordered_types"] = sorted(ao)
+    if "gluon_base::symbol::SymbolRef" not in ah:
+        rep.anchor_lost(R, "address-hashed key detection (SymbolRef hashes its pointer)")
     n_iter = 0
-    n_fnv = []
+    listed = []
     pool = [b for b in fb.bodies.values() if b.kind != "coroutine_post" and b.crate.name in CRATES] + \
            [b for b in fb.pre.values() if b.crate.name in CRATES]
     for b in pool:
@@ -68,36 +184,55 @@ def r7a(fb, rep):
                 continue
             adt, args, meth = h
             n_iter += 1
-            is_hash = adt in HASH_ADTS
-            hasher = args[-1]["s"] if args and is_hash else ""
+            is_hash = adt in HASH_ADTS or adt in WRAPPER_ADTS
+            hashers = [a["s"] for a in args if "BuildHasher" in a["s"] or "RandomState" in a["s"] or a.get("k") == "param" and a["s"] in ("H", "S")]
             key = args[0] if args else None
             root = b.get("root") or b.id
-            random_order = is_hash and ("RandomState" in hasher or (len(args) < 3 and "hashbrown" not in adt and "HashMap" in adt and len(args) == 2))
-            addr = key is not None and _is_addr_key(b, key)
-            what = "%s<%s>::%s" % (adt.rsplit("::", 1)[1], ", ".join(a["s"] for a in args)[:120], meth)
-            if random_order or addr:
-                k = (root, adt.rsplit("::", 1)[1])
-                if k in exempt:
-                    rep.exception(R, "%s|%s" % k, exempt[k])
-                    continue
-                rep.violation(R, "unordered-iteration|%s|%s" % (root, adt.rsplit("::", 1)[1]),
-                              "%s iterates %s whose order is %s" % (root, what, "per-process random (RandomState)" if random_order else "address dependent (pointer keys)"),
-                              c.where())
+            cause = None
+            if adt in HASH_ADTS and any("RandomState" in h_ for h_ in hashers):
+                cause = "per-process random order (RandomState hasher)"
+            elif key is not None:
+                m = _row_mentions(b, key, ah if is_hash else ao)
+                if m:
+                    cause = "address-dependent order (key %s %s by address)" % (m, "hashes" if is_hash else "orders")
+            what = "%s<%s>::%s" % (adt.rsplit("::", 1)[1], ", ".join(a["s"] for a in args[:2])[:100], meth)
+            if cause is None:
+                if key is not None and key.get("k") == "param":
+                    listed.append("%s: %s (generic key; judged at its instantiations' own iteration sites)" % (root, what))
+                rep.ok(R, None)
+                continue
+            verdict, why = _consumer(b, c) if meth not in ("retain",) else ("insensitive", "retain visits every element; result is a set")
+            kk = (root, what.split("<")[0])
+            if verdict == "insensitive":
+                rep.ok(R, "%s: %s has %s but the consumer is order-insensitive (%s)" % (root, what, cause.split(" (")[0], why))
+            elif kk in exempt:
+                rep.exception(R, "%s|%s" % kk, exempt[kk])
             else:
-                if is_hash:
-                    n_fnv.append("%s: %s" % (root, what))
-                rep.ok(R, "%s: %s has a content-determined order" % (root, what) if not is_hash else None)
-    rep.floor(R, "iterations over hash/btree containers examined", n_iter, 40)
-    rep.extra["fnv_iterations_listed_not_judged"] = sorted(set(n_fnv))[:80]
-    # the idiom the repo uses to stay deterministic where it needs grouping by key: an order Vec next to the map
+                rep.violation(R, "unordered-iteration|%s|%s" % kk,
+                              "%s iterates %s — %s — and the consumer is order sensitive: %s" % (root, what, cause, why), c.where())
+    rep.floor(R, "iterations over hash/btree containers examined", n_iter, 25)
+    rep.extra["generic_iterations_listed"] = sorted(set(listed))[:40]
+    # sorting by an address-ordered key
+    n_sort = 0
+    for b in pool:
+        for c in b.calls():
+            if ("slice::<impl [T]>::sort" in c.res or c.res.endswith("::sort") or c.res.endswith("::sort_unstable") or c.res.endswith("::dedup")) and c.desc.get("ga"):
+                el = b.ty(c.desc["ga"][0])
+                n_sort += 1
+                m = _row_mentions(b, el, ao)
+                root = b.get("root") or b.id
+                if m and (root, "sort") not in exempt:
+                    rep.violation(R, "address-sort|%s" % root, "%s sorts elements ordered by address (%s)" % (root, m), c.where())
+                elif m:
+                    rep.exception(R, "%s|sort" % root, exempt[(root, "sort")])
+    rep.extra["sort_sites_examined"] = n_sort
     pt = [b for b in fb.bodies.values() if "PatternTranslator" in b.id and b.id.endswith("compile_constructor")]
     if pt:
         b = pt[0]
-        has_map = any("HashMap" in b.local_tstr(i) or "FnvMap" in b.local_tstr(i) for i in range(len(b.d["locals"])))
         iters = [c for c in b.calls() if _hash_recv(b, c)]
-        if has_map and not iters:
+        if not iters:
             rep.ok(R, "PatternTranslator::compile_constructor groups through a map but iterates its separate order Vec")
-        elif iters:
+        else:
             rep.violation(R, "group-order-idiom", "compile_constructor now iterates its grouping map directly (match-arm order becomes hash dependent)", iters[0].where())
 
 
@@ -163,7 +298,7 @@ def r7b(fb, rep):
 def r7c(fb, rep):
     R = "R7c"
     rep.rule(R, "no address flows into an ordering, a hash of an iterated container or formatted text")
-    exempt = {(e["fn"]): e["reason"] for e in table("determinism_exempt.json")["addresses"]}
+    exempt = {e["fn"]: e["reason"] for e in table("determinism_exempt.json")["addresses"]}
     n = 0
     pool = [b for b in fb.bodies.values() if b.kind != "coroutine_post" and b.crate.name in CRATES] + \
            [b for b in fb.pre.values() if b.crate.name in CRATES]
@@ -175,10 +310,14 @@ def r7c(fb, rep):
         for c in b.calls():
             if c.res.endswith("Argument::<'_>::new_pointer"):
                 n += 1
-                if root in exempt:
+                user_facing = "as core::fmt::Display>::fmt" in root
+                if not user_facing:
+                    rep.extra.setdefault("pointer_formatting_in_debug_or_log_only", []).append(root)
+                    rep.ok(R, None)
+                elif root in exempt:
                     rep.exception(R, root, exempt[root])
                 else:
-                    rep.violation(R, "pointer-formatted|%s" % root, "%s formats an address ({:p})" % root, c.where())
+                    rep.violation(R, "pointer-formatted|%s" % root, "%s (user-facing text) formats an address ({:p})" % root, c.where())
         for i, j, place, rv, line in b.assigns():
             if rv[0] == "cast" and rv[1] in ("PointerExposeProvenance",):
                 n += 1
